@@ -8,7 +8,7 @@
 (*                  [a |-> "D", n, m, post, out, res]          message m delivered to n *)
 (*                  [a |-> "S", n, op, post, out, res]         submit(op) called on n   *)
 (*                  [a |-> "X"|"R", n]                         crash / restart          *)
-(*                  [a |-> "LT", n, post]                      timer of crashed n lost  *)
+(*                  [a |-> "LT", n, w, post]                   timer of crashed n lost  *)
 (*                  [a |-> "DC", n, m] | [a |-> "DR", m]       message dropped          *)
 (*                  [a |-> "F", n, post]                       node changed outside a step *)
 (*               >> ]                                                         *)
@@ -19,19 +19,23 @@
 (* For every step the RaftCore handler is evaluated on the OBSERVED pre-state *)
 (* and compared with the observed post-state / outputs (model conformance),   *)
 (* and every RaftContract predicate is evaluated on the observed states.      *)
-(* Exactly one line per trace:  <<"V", id, verdict, pos, mpos>>               *)
+(* The spec is total.  Exactly one line per trace:                            *)
+(*      <<"V", id, verdict, pos, mpos, fails>>                                *)
 (*   verdict "ACCEPT" | "PROP:<clause>" (contract false on the observed       *)
 (*   execution, first such step = pos) | "MODEL:<what>" (code and model       *)
 (*   disagree, no contract clause false).  mpos = first step at which model   *)
-(*   and code disagreed (0 = never): a PROP verdict with mpos = 0 or          *)
-(*   mpos > pos is an execution the model with this Dev reproduces exactly.   *)
+(*   and code disagreed (0 = never): a contract failure at a step before mpos *)
+(*   (or with mpos = 0) belongs to an execution this model (with its Dev)     *)
+(*   reproduces exactly.  fails = <<clause, first step>> for EVERY clause     *)
+(*   that became false somewhere in the trace (the walk does not stop at the  *)
+(*   first one, so that a known failure does not hide a different one).       *)
 EXTENDS RaftCore, RaftContract, Bags, Json, IOUtils
 
 Traces == JsonDeserialize(IOEnv.TRACE_FILE)
 NT == Len(Traces)
 
-VARIABLES ti, k, cur, bag, down, ldr, cmt, futs, pv, ppos, mv, mpos
-tvars == <<ti, k, cur, bag, down, ldr, cmt, futs, pv, ppos, mv, mpos>>
+VARIABLES ti, k, cur, bag, down, ldr, cmt, futs, fails, mv, mpos
+tvars == <<ti, k, cur, bag, down, ldr, cmt, futs, fails, mv, mpos>>
 
 ToSet(q) == { q[j] : j \in 1..Len(q) }
 RECURSIVE SeqBag(_)
@@ -50,41 +54,48 @@ Init ==
     /\ bag = EmptyBag /\ down = {}
     /\ ldr = IF NT = 0 THEN {} ELSE LdrUpd({}, Load(Traces[1]))
     /\ cmt = {} /\ futs = {}
-    /\ pv = "" /\ ppos = 0 /\ mv = "" /\ mpos = 0
+    /\ fails = <<>> /\ mv = "" /\ mpos = 0
 
-\* first violated contract clause on a step cur -> new ("" = none)
-Clause(new, l2, c2, f2) ==
-    IF ~ElectionSafetyP(l2) THEN "PROP:ElectionSafety"
-    ELSE IF ~LogMatchingP(new) THEN "PROP:LogMatching"
-    ELSE IF ~LeaderCompletenessP(new, c2) THEN "PROP:LeaderCompleteness"
-    ELSE IF ~AppliedInOrderP(cur, new) THEN "PROP:AppliedInOrder"
-    ELSE IF ~StateMachineSafetyP(new) THEN "PROP:StateMachineSafety"
-    ELSE IF ~FutureTruthP(f2) THEN "PROP:FutureTruth"
-    ELSE ""
+Order == <<"ElectionSafety", "LogMatching", "LeaderCompleteness", "AppliedInOrder", "StateMachineSafety",
+           "FutureTruth">>
+Seen == { fails[j][1] : j \in 1..Len(fails) }
 
-\* a step that ran (or should have run) code on node n: model result r, observed post/out/res
+\* contract clauses false on the step cur -> new
+Bad(new, l2, c2, f2) ==
+    (IF ElectionSafetyP(l2) THEN {} ELSE {"ElectionSafety"})
+    \cup (IF LogMatchingP(new) THEN {} ELSE {"LogMatching"})
+    \cup (IF LeaderCompletenessP(new, c2) THEN {} ELSE {"LeaderCompleteness"})
+    \cup (IF AppliedInOrderP(cur, new) THEN {} ELSE {"AppliedInOrder"})
+    \cup (IF StateMachineSafetyP(new) THEN {} ELSE {"StateMachineSafety"})
+    \cup (IF FutureTruthP(f2) THEN {} ELSE {"FutureTruth"})
+
+RECURSIVE Note(_, _, _)
+Note(fs, b, j) == IF j > Len(Order) THEN fs
+                  ELSE IF Order[j] \in b THEN Note(Append(fs, <<Order[j], k>>), b, j + 1)
+                  ELSE Note(fs, b, j + 1)
+
+Judge(new, l2, c2, f2) == fails' = Note(fails, Bad(new, l2, c2, f2) \ Seen, 1)
+Mis(mm) == mv' = (IF mv = "" THEN mm ELSE mv) /\ mpos' = (IF mv = "" /\ mm # "" THEN k ELSE mpos)
+
+\* a step that ran code on node n: model result r, observed post/out/res
 Ran(st, r, what, bag1, pre) ==
     LET post == Canon(st.post)
         new == [cur EXCEPT ![st.n] = post]
         l2 == LdrUpd(ldr, new)
         c2 == CmtUpd(cmt, cur, new)
         f2 == FutUpd(futs, st.res, post)
-        cl == Clause(new, l2, c2, f2)
         mm == IF pre # "" THEN pre
-              ELSE IF st.n \in down THEN "MODEL:crashed_node_ran"
+              ELSE IF st.n \in down /\ what # "submit" THEN "MODEL:crashed_node_ran"
               ELSE IF r.s # post THEN "MODEL:state_" \o what
               ELSE IF SeqBag(r.out) # SeqBag(st.out) THEN "MODEL:out_" \o what
               ELSE IF r.res # st.res THEN "MODEL:futures_" \o what
               ELSE ""
     IN /\ cur' = new /\ ldr' = l2 /\ cmt' = c2 /\ futs' = f2
        /\ bag' = bag1 (+) SeqBag(st.out)
-       /\ pv' = cl /\ ppos' = (IF cl # "" THEN k ELSE 0)
-       /\ mv' = (IF mv = "" THEN mm ELSE mv) /\ mpos' = (IF mv = "" /\ mm # "" THEN k ELSE mpos)
+       /\ Judge(new, l2, c2, f2) /\ Mis(mm)
        /\ UNCHANGED down
 
-Quiet(mm) ==
-    /\ mv' = (IF mv = "" THEN mm ELSE mv) /\ mpos' = (IF mv = "" /\ mm # "" THEN k ELSE mpos)
-    /\ UNCHANGED <<cur, ldr, cmt, futs, pv, ppos>>
+Quiet(mm) == Mis(mm) /\ UNCHANGED <<cur, ldr, cmt, futs, fails>>
 
 StepRec(st) ==
     CASE st.a = "T" -> Ran(st, OnTimeout(cur[st.n], st.n), "timeout", bag, "")
@@ -100,9 +111,8 @@ StepRec(st) ==
                exp == IF st.w = "et" THEN [cur[st.n] EXCEPT !.et = 0] ELSE [cur[st.n] EXCEPT !.hb = 0]
                mm == IF st.n \notin down THEN "MODEL:timer_lost_on_live_node"
                      ELSE IF post # exp THEN "MODEL:state_timer_lost" ELSE ""
-           IN /\ cur' = [cur EXCEPT ![st.n] = post]
-              /\ mv' = (IF mv = "" THEN mm ELSE mv) /\ mpos' = (IF mv = "" /\ mm # "" THEN k ELSE mpos)
-              /\ UNCHANGED <<bag, down, ldr, cmt, futs, pv, ppos>>
+           IN /\ cur' = [cur EXCEPT ![st.n] = post] /\ Mis(mm)
+              /\ UNCHANGED <<bag, down, ldr, cmt, futs, fails>>
       [] st.a = "DC" ->
            /\ bag' = bag (-) SetToBag({st.m}) /\ UNCHANGED down
            /\ Quiet(IF st.n \notin down THEN "MODEL:message_dropped_at_live_node"
@@ -117,25 +127,27 @@ StepRec(st) ==
                new == [cur EXCEPT ![st.n] = post]
                l2 == LdrUpd(ldr, new)
                c2 == CmtUpd(cmt, cur, new)
-               cl == Clause(new, l2, c2, futs)
            IN /\ cur' = new /\ ldr' = l2 /\ cmt' = c2 /\ UNCHANGED <<futs, bag, down>>
-              /\ pv' = cl /\ ppos' = (IF cl # "" THEN k ELSE 0)
-              /\ mv' = (IF mv = "" THEN "MODEL:frame" ELSE mv) /\ mpos' = (IF mv = "" THEN k ELSE mpos)
+              /\ Judge(new, l2, c2, futs) /\ Mis("MODEL:frame")
       [] OTHER -> Quiet("MODEL:unknown_step") /\ UNCHANGED <<bag, down>>
 
-Finish(verdict, pos) ==
-    /\ PrintT(<<"V", Traces[ti].id, verdict, pos, mpos>>)
-    /\ ti' = ti + 1 /\ k' = 1
-    /\ cur' = IF ti < NT THEN Load(Traces[ti + 1]) ELSE Dummy
-    /\ ldr' = IF ti < NT THEN LdrUpd({}, Load(Traces[ti + 1])) ELSE {}
-    /\ bag' = EmptyBag /\ down' = {} /\ cmt' = {} /\ futs' = {}
-    /\ pv' = "" /\ ppos' = 0 /\ mv' = "" /\ mpos' = 0
+RECURSIVE FailStr(_)
+FailStr(fs) == IF fs = <<>> THEN ""
+               ELSE fs[1][1] \o ":" \o ToString(fs[1][2]) \o ";" \o FailStr(Tail(fs))
+
+Finish ==
+    LET verdict == IF fails # <<>> THEN "PROP:" \o fails[1][1] ELSE IF mv # "" THEN mv ELSE "ACCEPT"
+        pos == IF fails # <<>> THEN fails[1][2] ELSE IF mv # "" THEN mpos ELSE k - 1
+    IN /\ PrintT(<<"V", Traces[ti].id, verdict, pos, mpos, FailStr(fails)>>)
+       /\ ti' = ti + 1 /\ k' = 1
+       /\ cur' = IF ti < NT THEN Load(Traces[ti + 1]) ELSE Dummy
+       /\ ldr' = IF ti < NT THEN LdrUpd({}, Load(Traces[ti + 1])) ELSE {}
+       /\ bag' = EmptyBag /\ down' = {} /\ cmt' = {} /\ futs' = {}
+       /\ fails' = <<>> /\ mv' = "" /\ mpos' = 0
 
 Next ==
     /\ ti <= NT
-    /\ IF pv # "" THEN Finish(pv, ppos)
-       ELSE IF k > Len(Traces[ti].steps)
-            THEN Finish(IF mv # "" THEN mv ELSE "ACCEPT", IF mv # "" THEN mpos ELSE k - 1)
+    /\ IF k > Len(Traces[ti].steps) THEN Finish
        ELSE StepRec(Traces[ti].steps[k]) /\ k' = k + 1 /\ ti' = ti
 
 Spec == Init /\ [][Next]_tvars
